@@ -7,6 +7,7 @@ V-NOCACHE  no statistic value is memoised: stat objects assign no attribute outs
            only the object returned by dispatch_stat, IDStat.__init__ keeps the network and the view by reference.
 V-ORDER    every ordered output of a statistic (asdict/aslist/asnumpy/aspandas, multi variants, argsort/argmax/argmin)
            takes its order from iteration over the view; from_view orders a bunch by the table, not by the bunch.
+V-FWD      every public method of the view classes reads each parameter and forwards keywords under their own name.
 V-FILTER   in filterby / filterby_attr each mode maps to its comparison operator between the stat value and the
            argument, the candidates are iterated in view order and the result is restricted through from_view.
 """
@@ -30,7 +31,7 @@ TABLE_OF_VIEW_ATTR = {"_id_dict", "_id_attr", "_bi_id_dict", "_bi_id_attr"}
 def run(ctx):
     repo = ctx.repo
     res = Result(PROP)
-    res.rules = ["V-LIVE", "V-REBIND", "V-NOCACHE", "V-ORDER", "V-FILTER"]
+    res.rules = ["V-LIVE", "V-REBIND", "V-NOCACHE", "V-ORDER", "V-FILTER", "V-FWD"]
     res.explanation = (
         "Structural rules over the view and stat classes and a package-wide who-may-rebind scan (effect analysis): views "
         "alias the live tables, nothing is cached, ordered outputs are tagged with the provenance of their iteration "
@@ -47,6 +48,20 @@ def run(ctx):
     check_nocache(repo, res, idview, stats)
     check_order(repo, res, idview, stats)
     check_filter(repo, res, idview)
+    # V-FWD: the public methods of the view classes read every parameter and forward keywords under their own name
+    # (sources/targets are aliases of tail/head; a dropped `e=` or `dtype=` changes what is returned)
+    from .c05_edits import check_params
+
+    n = 0
+    for cname in ("IDView", "NodeView", "EdgeView", "DiNodeView", "DiEdgeView"):
+        ci = views.classes.get(cname)
+        if ci is None:
+            raise AnalysisError(f"xgi.core.views.{cname} not found (anchor vanished)")
+        for m in ci.methods.values():
+            if m.name in ("__init__", "__setstate__", "__getstate__", "__getattr__"):
+                continue
+            n += check_params(repo, res, ci, m, prop=PROP, rule="V-FWD")
+    res.floor("view methods checked for dropped parameters", n, 20)
     return res
 
 
@@ -113,6 +128,12 @@ def check_live(repo, res, idview):
             if not ok:
                 res.add(mk_finding(PROP, "V-LIVE", fv, st, f"from_view binds {unparse(st.targets[0])} to `{unparse(v, 60)}` instead of the source view's own {st.targets[0].attr}", role=st.targets[0].attr))
     res.floor("table bindings in IDView.from_view", n, 4)
+    bound = {st.targets[0].attr for st in own_statements(fv.node) if isinstance(st, ast.Assign) and len(st.targets) == 1 and isinstance(st.targets[0], ast.Attribute)}
+    for attr in sorted(TABLE_OF_VIEW_ATTR | {"_net"}):
+        ok = attr in bound
+        res.inst("V-LIVE", f"IDView.from_view binds {attr} of the new view", ok)
+        if not ok:
+            res.add(mk_finding(PROP, "V-LIVE", fv, fv.node, f"from_view leaves `{attr}` of the new view unset (it is created with cls(None)); neighbors / memberships / attribute statistics on a restricted view then fail or read nothing", role=f"unset:{attr}"))
     ids_assigns = [st for st in own_statements(fv.node) if isinstance(st, ast.Assign) and any(isinstance(t, ast.Attribute) and t.attr == "_ids" for t in st.targets)]
     if len(ids_assigns) < 2:
         raise AnalysisError("IDView.from_view: expected the two assignments of _ids (bunch None / given)")
